@@ -198,6 +198,27 @@ def stokes_green_cases(slot: int, mono: Any, mname: str) -> list[tuple[str, str]
             out.append((f"stokes-swapped-{label}:{tag}", "" if equal(cs_sw, -circ) else
                 f"rectangle with exchanged parameters ({label}): {short(cs_sw)}, expected "
                 f"{short(-circ)}"))
+    if slot < 2 and mono.has(z) and not trig:
+        # planar regions given with two components lie in the plane z = 0: a field component that
+        # mentions z is taken there (missing coordinates are zero), in the curve integral and in the
+        # divergence / curl integrals alike
+        F2z = [sp.S.Zero, sp.S.Zero]
+        F2z[slot] = mono * (1 + z) + mono.subs(z, 1)
+        fldz = lib_field(F2z, cs)
+        curve, lim, surf, l1, l2 = closed_curves()["circle"]
+        tag = f"circle-z:F{slot}={mname}"
+        F0 = [f.subs(z, 0) for f in F2z]
+        flux = call(A.flux_across_curve, fldz, curve, lim)
+        for label, sf in (("flat", surf), ("3d", surf + [0])):
+            fs = call(A.flux_across_surface_boundary, fldz, sf, l1, l2)
+            out.append((f"green-{label}:{tag}", "" if equal(flux, fs) and equal(fs, ref_div_area(F0,
+                surf, l1, l2)) else f"flux across the circle {short(flux)}, divergence over the "
+                f"{label} disc {short(fs)}, closed form {short(ref_div_area(F0, surf, l1, l2))}"))
+            cs_ = call(A.circulation_along_surface_boundary, fldz, sf, l1, l2)
+            wantc = ref_line(F0 + [0], curve, lim)
+            out.append((f"stokes-{label}:{tag}", "" if equal(cs_, wantc) else
+                f"curl over the {label} disc {short(cs_)}, line integral {short(wantc)}"))
+            out.append((f"clean-{label}:{tag}", clean(fs, cs) or clean(cs_, cs)))
     if trig:
         return out
     # triangle: the inner limits depend on the outer parameter (surface given as a graph over a
